@@ -96,7 +96,7 @@ func cpRuns(xs []int) string {
 	return hx.List(items)
 }
 
-func nonNeg(xs []int) bool {
+func cpNonNeg(xs []int) bool {
 	for _, x := range xs {
 		if x < 0 {
 			return false
@@ -105,7 +105,7 @@ func nonNeg(xs []int) bool {
 	return true
 }
 
-func copyMap(m map[int]int) map[int]int {
+func cpCopyMap(m map[int]int) map[int]int {
 	r := make(map[int]int, len(m))
 	for k, v := range m {
 		r[k] = v
@@ -113,7 +113,7 @@ func copyMap(m map[int]int) map[int]int {
 	return r
 }
 
-func intsEq(a, b []int) bool {
+func cpIntsEq(a, b []int) bool {
 	if len(a) != len(b) {
 		return false
 	}
@@ -127,7 +127,7 @@ func intsEq(a, b []int) bool {
 
 // ---- parseCPUList in a throw-away worker process ----------------------------------------------
 
-type parseObs struct {
+type cpParseObs struct {
 	hung bool
 	ok   bool
 	cpus []int
@@ -179,8 +179,8 @@ func cpupickParseWorker(c *hx.Ctx) {
 	}
 }
 
-// runParseWorker feeds inputs to one worker and returns the answers it gave before it ended.
-func runParseWorker(c *hx.Ctx, inputs []string) []parseObs {
+// cpRunParseWorker feeds inputs to one worker and returns the answers it gave before it ended.
+func cpRunParseWorker(c *hx.Ctx, inputs []string) []cpParseObs {
 	exe, err := os.Executable()
 	if err != nil {
 		panic(err)
@@ -208,14 +208,14 @@ func runParseWorker(c *hx.Ctx, inputs []string) []parseObs {
 	}()
 	guard := time.AfterFunc(10*time.Minute, func() { cmd.Process.Kill() })
 	defer guard.Stop()
-	var out []parseObs
+	var out []cpParseObs
 	sc := bufio.NewScanner(stdout)
 	sc.Buffer(make([]byte, 1<<20), 1<<28)
 	for sc.Scan() {
 		line := sc.Text()
 		switch {
 		case line == "E":
-			out = append(out, parseObs{})
+			out = append(out, cpParseObs{})
 		case strings.HasPrefix(line, "O"):
 			f := strings.Fields(line[1:])
 			l := make([]int, len(f))
@@ -226,7 +226,7 @@ func runParseWorker(c *hx.Ctx, inputs []string) []parseObs {
 				}
 				l[i] = v
 			}
-			out = append(out, parseObs{ok: true, cpus: l})
+			out = append(out, cpParseObs{ok: true, cpus: l})
 		default:
 			panic("cpupick worker: bad answer " + line)
 		}
@@ -235,14 +235,14 @@ func runParseWorker(c *hx.Ctx, inputs []string) []parseObs {
 	return out
 }
 
-// parseAll observes parseCPUList on every input. An input whose call did not return is tried once more
+// cpParseAll observes parseCPUList on every input. An input whose call did not return is tried once more
 // in a fresh worker before it is recorded as not returning.
-func parseAll(c *hx.Ctx, inputs []string) []parseObs {
-	res := make([]parseObs, len(inputs))
+func cpParseAll(c *hx.Ctx, inputs []string) []cpParseObs {
+	res := make([]cpParseObs, len(inputs))
 	next := 0
 	retried := map[int]bool{}
 	for next < len(inputs) {
-		got := runParseWorker(c, inputs[next:])
+		got := cpRunParseWorker(c, inputs[next:])
 		if len(got) > len(inputs)-next {
 			panic("cpupick worker: too many answers")
 		}
@@ -253,7 +253,7 @@ func parseAll(c *hx.Ctx, inputs []string) []parseObs {
 				retried[next] = true
 				continue
 			}
-			res[next] = parseObs{hung: true}
+			res[next] = cpParseObs{hung: true}
 			next++
 		}
 	}
@@ -262,7 +262,7 @@ func parseAll(c *hx.Ctx, inputs []string) []parseObs {
 
 // ---- cpulist strings ---------------------------------------------------------------------------
 
-func cpulistCorpus() []string {
+func cpCorpus() []string {
 	mi := "9223372036854775807"
 	s := []string{
 		// valid lists
@@ -299,8 +299,8 @@ func cpulistCorpus() []string {
 	return s
 }
 
-// genCPUList: a list in the grammar most of the time, then possibly damaged.
-func genCPUList(c *hx.Ctx) (string, string) {
+// cpGenCPUList: a list in the grammar most of the time, then possibly damaged.
+func cpGenCPUList(c *hx.Ctx) (string, string) {
 	blank := func() string {
 		if !c.Chance(0.25) {
 			return ""
@@ -385,7 +385,7 @@ func genCPUList(c *hx.Ctx) (string, string) {
 	return s, kind
 }
 
-func genShortString(c *hx.Ctx) string {
+func cpGenShortString(c *hx.Ctx) string {
 	alpha := "019+-, _x\n"
 	n := c.Intn(8)
 	b := make([]byte, n)
@@ -405,9 +405,9 @@ type cpMachine struct {
 	desc   string
 }
 
-// mkMachine: nodes x coresPerNode x smt threads; layout 0: siblings adjacent, node-major; 1: sibling
+// cpMkMachine: nodes x coresPerNode x smt threads; layout 0: siblings adjacent, node-major; 1: sibling
 // = cpu + number of cores (the usual x86 numbering); 2: as 1 with the nodes interleaved.
-func mkMachine(nodes, cpn, smt, layout int, nodeIDs []int, pkgPerNode bool) cpMachine {
+func cpMkMachine(nodes, cpn, smt, layout int, nodeIDs []int, pkgPerNode bool) cpMachine {
 	cores := nodes * cpn
 	m := cpMachine{ncpu: cores * smt, desc: fmt.Sprintf("%dn x %dc x %dt layout%d", nodes, cpn, smt, layout)}
 	m.node, m.pkg, m.coreID = make([]int, m.ncpu), make([]int, m.ncpu), make([]int, m.ncpu)
@@ -459,7 +459,7 @@ func (m cpMachine) topoFor(cands []int) (nodeOf, coreOf map[int]int, zeroCore in
 	return
 }
 
-func genMachine(c *hx.Ctx) cpMachine {
+func cpGenMachine(c *hx.Ctx) cpMachine {
 	nodes := 1 + c.Intn(4)
 	cpn := 1 + c.Intn(4)
 	smt := []int{1, 2, 2, 4}[c.Intn(4)]
@@ -467,10 +467,10 @@ func genMachine(c *hx.Ctx) cpMachine {
 	if c.Chance(0.2) {
 		ids = []int{0, 2, 8, 10}
 	}
-	return mkMachine(nodes, cpn, smt, c.Intn(3), ids, c.Chance(0.8))
+	return cpMkMachine(nodes, cpn, smt, c.Intn(3), ids, c.Chance(0.8))
 }
 
-func genCands(c *hx.Ctx, m cpMachine) ([]int, string) {
+func cpGenCands(c *hx.Ctx, m cpMachine) ([]int, string) {
 	all := make([]int, m.ncpu)
 	for i := range all {
 		all[i] = i
@@ -513,7 +513,7 @@ func genCands(c *hx.Ctx, m cpMachine) ([]int, string) {
 	return cands, kind
 }
 
-func genRoutines(c *hx.Ctx, m cpMachine, ncands int) int {
+func cpGenRoutines(c *hx.Ctx, m cpMachine, ncands int) int {
 	perNode := 1
 	if m.ncpu > 0 {
 		cnt := map[int]int{}
@@ -542,12 +542,12 @@ func genRoutines(c *hx.Ctx, m cpMachine, ncands int) int {
 
 // ---- arrange -----------------------------------------------------------------------------------
 
-func addArrange(cw *hx.CaseWriter, kind string, cands []int, nodeOf, coreOf map[int]int, zeroCore, routines int, h uint64) {
-	out, panicked := cpupick.VerifArrange(cands, copyMap(nodeOf), copyMap(coreOf), zeroCore, routines, h)
-	out2, panicked2 := cpupick.VerifArrange(cands, copyMap(nodeOf), copyMap(coreOf), zeroCore, routines, h)
-	stable := panicked == panicked2 && intsEq(out, out2)
+func cpAddArrange(cw *hx.CaseWriter, kind string, cands []int, nodeOf, coreOf map[int]int, zeroCore, routines int, h uint64) {
+	out, panicked := cpupick.VerifArrange(cands, cpCopyMap(nodeOf), cpCopyMap(coreOf), zeroCore, routines, h)
+	out2, panicked2 := cpupick.VerifArrange(cands, cpCopyMap(nodeOf), cpCopyMap(coreOf), zeroCore, routines, h)
+	stable := panicked == panicked2 && cpIntsEq(out, out2)
 	obs := hx.None()
-	if !panicked && nonNeg(out) {
+	if !panicked && cpNonNeg(out) {
 		obs = hx.Some(cpNList(out))
 	}
 	lit := hx.App("CpuPick_corr.CArr", cpNList(cands), cpMap(nodeOf), cpMap(coreOf), cpZ(zeroCore), cpZ(routines), cpNum(h), obs, hx.Bool(stable))
@@ -571,7 +571,7 @@ func (t *cpTree) fresh() string {
 	return d
 }
 
-func writeFile(path, content string) {
+func cpWriteFile(path, content string) {
 	if err := os.MkdirAll(filepath.Dir(path), 0o755); err != nil {
 		panic(err)
 	}
@@ -580,8 +580,8 @@ func writeFile(path, content string) {
 	}
 }
 
-// intFile: the text of a sysfs integer file; the bool says whether readIntFile can read it as the value.
-func intFile(c *hx.Ctx, v int) (string, bool) {
+// cpIntFile: the text of a sysfs integer file; the bool says whether readIntFile can read it as the value.
+func cpIntFile(c *hx.Ctx, v int) (string, bool) {
 	switch c.Intn(40) {
 	case 0:
 		return "", false
@@ -600,8 +600,8 @@ func intFile(c *hx.Ctx, v int) (string, bool) {
 	}
 }
 
-// kernelList formats CPUs the way the kernel prints a cpulist (ranges, ascending).
-func kernelList(cpus []int) string {
+// cpKernelList formats CPUs the way the kernel prints a cpulist (ranges, ascending).
+func cpKernelList(cpus []int) string {
 	s := append([]int(nil), cpus...)
 	sort.Ints(s)
 	var parts []string
@@ -620,7 +620,7 @@ func kernelList(cpus []int) string {
 	return strings.Join(parts, ",")
 }
 
-func addPerf(c *hx.Ctx, cw *hx.CaseWriter, tr *cpTree) {
+func cpAddPerf(c *hx.Ctx, cw *hx.CaseWriter, tr *cpTree) {
 	capPct, freqPct := cpupick.VerifConsts()
 	dir := tr.fresh()
 	cpuDir := filepath.Join(dir, "cpu")
@@ -659,8 +659,8 @@ func addPerf(c *hx.Ctx, cw *hx.CaseWriter, tr *cpTree) {
 			if mode == 3 && c.Chance(0.15) { // a CPU without the file
 				continue
 			}
-			txt, ok := intFile(c, v)
-			writeFile(filepath.Join(cpuDir, fmt.Sprintf("cpu%d", i), file), txt)
+			txt, ok := cpIntFile(c, v)
+			cpWriteFile(filepath.Join(cpuDir, fmt.Sprintf("cpu%d", i), file), txt)
 			if ok {
 				dst[i] = v
 			}
@@ -676,7 +676,7 @@ func addPerf(c *hx.Ctx, cw *hx.CaseWriter, tr *cpTree) {
 				set = append(set, i)
 			}
 		}
-		m := kernelList(set) + "\n"
+		m := cpKernelList(set) + "\n"
 		switch c.Intn(12) {
 		case 0:
 			m = "\n"
@@ -685,14 +685,14 @@ func addPerf(c *hx.Ctx, cw *hx.CaseWriter, tr *cpTree) {
 		case 2:
 			m = "+1\n"
 		case 3:
-			m = " " + kernelList(set) + " \n\n"
+			m = " " + cpKernelList(set) + " \n\n"
 		case 4:
-			m = kernelList(set) + ",\u00a0,0\n" // a non-ASCII blank inside the list: not a cpulist
+			m = cpKernelList(set) + ",\u00a0,0\n" // a non-ASCII blank inside the list: not a cpulist
 		case 5:
 			m = strconv.Itoa(ncpu+5) + "-" + strconv.Itoa(ncpu+9) + "\n" // names no allowed CPU
 		}
 		mask = &m
-		writeFile(maskPath, m)
+		cpWriteFile(maskPath, m)
 	}
 	if kind == "perf-freq" || (kind == "perf-mixed" && c.Chance(0.5)) {
 		fill(freqV, "cpufreq/cpuinfo_max_freq", freqPct)
@@ -707,11 +707,11 @@ func addPerf(c *hx.Ctx, cw *hx.CaseWriter, tr *cpTree) {
 	os.RemoveAll(dir)
 }
 
-func addTopo(c *hx.Ctx, cw *hx.CaseWriter, tr *cpTree) {
+func cpAddTopo(c *hx.Ctx, cw *hx.CaseWriter, tr *cpTree) {
 	dir := tr.fresh()
 	nodeDir, cpuDir := filepath.Join(dir, "node"), filepath.Join(dir, "cpu")
-	m := genMachine(c)
-	cands, ckind := genCands(c, m)
+	m := cpGenMachine(c)
+	cands, ckind := cpGenCands(c, m)
 	mode := c.Intn(8) // 0: no node directory at all; 1: some node without cpulist; 2: overlapping claims; 3: damaged cpulist
 	type ent struct {
 		name    string
@@ -724,14 +724,20 @@ func addTopo(c *hx.Ctx, cw *hx.CaseWriter, tr *cpTree) {
 		for cpu, n := range m.node {
 			byNode[n] = append(byNode[n], cpu)
 		}
-		for n, cpus := range byNode {
+		var nodeIDs []int
+		for n := range byNode {
+			nodeIDs = append(nodeIDs, n)
+		}
+		sort.Ints(nodeIDs) // map order must not steer the PRNG: a seed has to replay exactly
+		for _, n := range nodeIDs {
+			cpus := byNode[n]
 			name := fmt.Sprintf("node%d", n)
 			if mode == 2 && c.Chance(0.5) {
 				cpus = append(cpus, c.Intn(m.ncpu))
 			}
-			txt := kernelList(cpus) + "\n"
+			txt := cpKernelList(cpus) + "\n"
 			if mode == 3 && c.Chance(0.4) {
-				txt = []string{"", "\n", "0-\n", "+1\n", "0-3:1/2\n", kernelList(cpus) + ",\n", " " + kernelList(cpus) + "\n"}[c.Intn(7)]
+				txt = []string{"", "\n", "0-\n", "+1\n", "0-3:1/2\n", cpKernelList(cpus) + ",\n", " " + cpKernelList(cpus) + "\n"}[c.Intn(7)]
 			}
 			if mode == 1 && c.Chance(0.4) {
 				if err := os.MkdirAll(filepath.Join(nodeDir, name), 0o755); err != nil {
@@ -740,17 +746,17 @@ func addTopo(c *hx.Ctx, cw *hx.CaseWriter, tr *cpTree) {
 				ents = append(ents, ent{name, n, nil})
 				continue
 			}
-			writeFile(filepath.Join(nodeDir, name, "cpulist"), txt)
+			cpWriteFile(filepath.Join(nodeDir, name, "cpulist"), txt)
 			t := txt
 			ents = append(ents, ent{name, n, &t})
 		}
 		for _, decoy := range []string{"has_cpu", "possible", "online", "nodefoo", "node", "power"} {
 			if c.Chance(0.5) {
-				writeFile(filepath.Join(nodeDir, decoy, "cpulist"), "0-63\n")
+				cpWriteFile(filepath.Join(nodeDir, decoy, "cpulist"), "0-63\n")
 			}
 		}
 		if c.Chance(0.3) {
-			writeFile(filepath.Join(nodeDir, "has_memory"), "0\n") // a plain file, as in the real sysfs
+			cpWriteFile(filepath.Join(nodeDir, "has_memory"), "0\n") // a plain file, as in the real sysfs
 		}
 	}
 	sort.Slice(ents, func(i, j int) bool { return ents[i].name < ents[j].name }) // os.ReadDir order
@@ -758,14 +764,14 @@ func addTopo(c *hx.Ctx, cw *hx.CaseWriter, tr *cpTree) {
 	for cpu := 0; cpu < m.ncpu; cpu++ {
 		if c.Chance(0.06) { // unreadable topology
 			if c.Chance(0.5) {
-				writeFile(filepath.Join(cpuDir, fmt.Sprintf("cpu%d", cpu), "topology", "core_id"), strconv.Itoa(m.coreID[cpu])+"\n")
+				cpWriteFile(filepath.Join(cpuDir, fmt.Sprintf("cpu%d", cpu), "topology", "core_id"), strconv.Itoa(m.coreID[cpu])+"\n")
 			}
 			continue
 		}
-		t1, ok1 := intFile(c, m.pkg[cpu])
-		t2, ok2 := intFile(c, m.coreID[cpu])
-		writeFile(filepath.Join(cpuDir, fmt.Sprintf("cpu%d", cpu), "topology", "physical_package_id"), t1)
-		writeFile(filepath.Join(cpuDir, fmt.Sprintf("cpu%d", cpu), "topology", "core_id"), t2)
+		t1, ok1 := cpIntFile(c, m.pkg[cpu])
+		t2, ok2 := cpIntFile(c, m.coreID[cpu])
+		cpWriteFile(filepath.Join(cpuDir, fmt.Sprintf("cpu%d", cpu), "topology", "physical_package_id"), t1)
+		cpWriteFile(filepath.Join(cpuDir, fmt.Sprintf("cpu%d", cpu), "topology", "core_id"), t2)
 		if ok1 && ok2 {
 			pc[cpu] = [2]int{m.pkg[cpu], m.coreID[cpu]}
 		}
@@ -788,7 +794,7 @@ func addTopo(c *hx.Ctx, cw *hx.CaseWriter, tr *cpTree) {
 	cw.Add(lit, fmt.Sprintf("topo-mode%d", mode), len(cands) > 1, map[string]any{"op": "readTopologyFrom", "machine": m.desc, "cands": cands,
 		"cands_kind": ckind, "mode": mode, "nodeOf": fmt.Sprint(nodeOf), "coreOf": fmt.Sprint(coreOf), "zeroCore": zc})
 	// and arrange on what the readers reported
-	addArrange(cw, "arrange-sysfs", cands, nodeOf, coreOf, zc, genRoutines(c, m, len(cands)), c.EdgeU64(64))
+	cpAddArrange(cw, "arrange-sysfs", cands, nodeOf, coreOf, zc, cpGenRoutines(c, m, len(cands)), c.EdgeU64(64))
 	os.RemoveAll(dir)
 }
 
@@ -802,15 +808,15 @@ func runCPUPick(c *hx.Ctx) {
 	// 1. cpulist strings: corpus first, then generated ones; all observed through the worker process
 	type pin struct{ s, kind string }
 	var pins []pin
-	for _, s := range cpulistCorpus() {
+	for _, s := range cpCorpus() {
 		pins = append(pins, pin{s, "parse-corpus"})
 	}
 	nParse := c.N * 45 / 100
 	for i := 0; i < nParse; i++ {
 		if c.Chance(0.15) {
-			pins = append(pins, pin{genShortString(c), "parse-short"})
+			pins = append(pins, pin{cpGenShortString(c), "parse-short"})
 		} else {
-			s, k := genCPUList(c)
+			s, k := cpGenCPUList(c)
 			pins = append(pins, pin{s, k})
 		}
 	}
@@ -818,7 +824,7 @@ func runCPUPick(c *hx.Ctx) {
 	for i, p := range pins {
 		inputs[i] = p.s
 	}
-	obs := parseAll(c, inputs)
+	obs := cpParseAll(c, inputs)
 	var failures []map[string]any
 	for i, p := range pins {
 		o := obs[i]
@@ -830,7 +836,7 @@ func runCPUPick(c *hx.Ctx) {
 		case !o.ok:
 			lit = hx.App("CpuPick_corr.PRet", hx.None())
 			d["result"] = "error"
-		case !nonNeg(o.cpus): // cannot be written as a list of N: a negative CPU id is outside any expansion
+		case !cpNonNeg(o.cpus): // cannot be written as a list of N: a negative CPU id is outside any expansion
 			d["result"] = "negative cpu id"
 			failures = append(failures, map[string]any{"i": cw.Total(), "code": 2})
 		default:
@@ -864,7 +870,7 @@ func runCPUPick(c *hx.Ctx) {
 		for _, smt := range []int{1, 2, 4} {
 			for layout := 0; layout < 3; layout++ {
 				for _, cpn := range []int{1, 2} {
-					m := mkMachine(nodes, cpn, smt, layout, []int{0, 1, 2, 3}, true)
+					m := cpMkMachine(nodes, cpn, smt, layout, []int{0, 1, 2, 3}, true)
 					if c.Tier != "thorough" && m.ncpu > 16 {
 						continue // the quick tier leaves the two largest shapes to the random machines
 					}
@@ -879,11 +885,11 @@ func runCPUPick(c *hx.Ctx) {
 							r int
 							h uint64
 						}{{1, 0}, {cpn * smt, h1}, {cpn * smt, 0}, {cpn*smt + 1, h1}} {
-							addArrange(cw, "arrange-sweep", cands, nodeOf, coreOf, zc, rh.r, rh.h)
+							cpAddArrange(cw, "arrange-sweep", cands, nodeOf, coreOf, zc, rh.r, rh.h)
 						}
 						if c.Tier == "thorough" {
-							addArrange(cw, "arrange-sweep", cands, nodeOf, coreOf, zc, 1, h1)
-							addArrange(cw, "arrange-sweep", cands, nodeOf, coreOf, zc, cpn*smt+1, 0)
+							cpAddArrange(cw, "arrange-sweep", cands, nodeOf, coreOf, zc, 1, h1)
+							cpAddArrange(cw, "arrange-sweep", cands, nodeOf, coreOf, zc, cpn*smt+1, 0)
 						}
 					}
 				}
@@ -894,13 +900,13 @@ func runCPUPick(c *hx.Ctx) {
 	for _, cands := range [][]int{{}, {0}, {5}, {0, 1}, {3, 0}, {0, 1, 2, 3, 4, 5, 6, 7}, {4, 5, 6, 7}, {2, 0, 2}} {
 		n, co, zc := cpupick.VerifFlatTopology(cands)
 		for _, r := range []int{0, 1, 4, 9} {
-			addArrange(cw, "arrange-flat", cands, n, co, zc, r, c.U64())
+			cpAddArrange(cw, "arrange-flat", cands, n, co, zc, r, c.U64())
 		}
 	}
 	nArr := c.N * 35 / 100
 	for i := 0; i < nArr; i++ {
-		m := genMachine(c)
-		cands, ckind := genCands(c, m)
+		m := cpGenMachine(c)
+		cands, ckind := cpGenCands(c, m)
 		nodeOf, coreOf, zc := m.topoFor(cands)
 		kind := "arrange-" + ckind
 		switch c.Intn(12) {
@@ -916,12 +922,10 @@ func runCPUPick(c *hx.Ctx) {
 			}
 			kind += "+relabel"
 		case 2: // map entries missing: a missing key reads as 0
-			for k := range nodeOf {
+			for _, k := range cands { // in candidate order, not map order: a seed has to replay exactly
 				if c.Chance(0.3) {
 					delete(nodeOf, k)
 				}
-			}
-			for k := range coreOf {
 				if c.Chance(0.2) {
 					delete(coreOf, k)
 				}
@@ -930,7 +934,7 @@ func runCPUPick(c *hx.Ctx) {
 		case 3: // CPU 0's core id points at a core no candidate is on
 			zc, kind = 1000, kind+"+zc-foreign"
 		}
-		addArrange(cw, kind, cands, nodeOf, coreOf, zc, genRoutines(c, m, len(cands)), c.EdgeU64(64))
+		cpAddArrange(cw, kind, cands, nodeOf, coreOf, zc, cpGenRoutines(c, m, len(cands)), c.EdgeU64(64))
 	}
 
 	// 4. pickCandidates
@@ -952,8 +956,8 @@ func runCPUPick(c *hx.Ctx) {
 	// 5. sysfs readers on generated trees
 	nTree := c.N * 10 / 100
 	for i := 0; i < nTree; i++ {
-		addPerf(c, cw, tr)
-		addTopo(c, cw, tr)
+		cpAddPerf(c, cw, tr)
+		cpAddTopo(c, cw, tr)
 	}
 
 	// 6. the real Default on this machine
@@ -965,7 +969,7 @@ func runCPUPick(c *hx.Ctx) {
 			for _, key := range []uint64{0, 4242, 4243, c.U64()} {
 				out := cpupick.Default(r, key, nil)
 				out2 := cpupick.Default(r, key, nil)
-				stable := intsEq(out, out2) && (out == nil) == (out2 == nil)
+				stable := cpIntsEq(out, out2) && (out == nil) == (out2 == nil)
 				obs := hx.None()
 				if out != nil {
 					obs = hx.Some(cpNList(out))
